@@ -136,6 +136,9 @@ def gen_scenario(prng, tier, index, focus):
           "defaults": prng.choice(("none", "none", "construct", "run"))}
     if variant == "faults":
         sc["abort_frac"] = round(prng.random(), 3)
+        if prng.random() < 0.5:
+            # interrupt at an arbitrary executed LINE of library code instead of at a draw
+            sc["abort_line"] = prng.choice((prng.randrange(0, 60), prng.randrange(0, 2000), prng.randrange(0, 40000)))
     return sc
 
 
@@ -214,7 +217,10 @@ def run_history(sc, ctx, prefix, on_state, on_abort=None):
         except Exception as e:
             ctx.violate(f"{P}.raised", f"constructing the rewiring raised {describe_exc(e)}")
             return info
-        st, G = ctx.call(src, mc.rewire, budget=budget_for(sc["K"]), abort_at=at, label="rewire[abort]")
+        if sc.get("abort_line") is not None:
+            st, G = ctx.call(src, mc.rewire, budget=budget_for(sc["K"]), abort_at_line=sc["abort_line"], label="rewire[abort at line]")
+        else:
+            st, G = ctx.call(src, mc.rewire, budget=budget_for(sc["K"]), abort_at=at, label="rewire[abort]")
         ctx.check("C11.input")
         if netsim.snapshot(G0) != before:
             ctx.violate("C11.input", f"the given network was modified by a rewire() aborted at draw {at}")
